@@ -1,12 +1,13 @@
 #!/bin/sh
-# usage: VERIF_SEED=n tools/seeded_pass_iso.sh <jobs> <result file>
+# usage: VERIF_SEED=n [SEED_FILTER=regex] tools/seeded_pass_iso.sh <jobs> <result file>
 # A second opinion on the seeded changes under another seed: runs the quick check of every seeded change's
 # property in <jobs> isolated runners side by side (scratch worktrees /tmp/mutiso-<k>, /repo untouched).
 # The recorded results (seeded/RESULTS.txt) come from run_seeded.sh.
 cd /verif || exit 2
 jobs=${1:-4}; res=${2:-/tmp/seeded_pass.txt}
 : > "$res"
-ls -d seeded/C??* | while read d; do [ -f "$d/patch.diff" ] && echo "$d"; done > /tmp/seeded_pass.list
+# SEED_FILTER: extended regex on the directory name (e.g. 'C[0-9]+[b-e]?$' for the first five rounds)
+ls -d seeded/C??* | grep -E "${SEED_FILTER:-.}" | while read d; do [ -f "$d/patch.diff" ] && echo "$d"; done > /tmp/seeded_pass.list
 k=0
 while [ $k -lt $jobs ]; do
   ( awk -v k=$k -v n=$jobs 'NR % n == k' /tmp/seeded_pass.list | while read d; do
